@@ -13,7 +13,9 @@ import (
 
 // C11 — KeyGen and Sign fail cleanly on timeout, cancellation or a vanished peer.
 
+// (Direct: the key generators of the built-in schemes used directly, see runC11Direct)
 type C11Cfg struct {
+	Direct     bool   `json:"direct,omitempty"`
 	Sess       C04Cfg `json:"sess"`
 	Fault      string `json:"fault"` // none | crash | withhold | cancel | badshare
 	P          uint16 `json:"p"`     // crash: the peer that goes silent after its K-th outgoing message
@@ -116,6 +118,12 @@ func genC11(seed uint64, index int, tier string) C11Cfg {
 	c.K = r.Intn(60)
 	c.J = r.Intn(150)
 	c.CancelAt = r.Intn(250)
+	if rx := prng.Derive(seed, "direct"); (c.Sess.Deploy.Backend == "bls" || c.Sess.Deploy.Backend == "ps") && c.Sess.Op == "keygen" && rx.Bool(0.5) {
+		c.Direct = true
+		c.Fault = "direct-cancel"
+		c.K = rx.Intn(3 * len(c.Sess.Deploy.IDs))
+		c.CancelAt = 5 + rx.Intn(120)
+	}
 	if rd := prng.Derive(seed, "real-init-delay"); c.Sess.Deploy.Backend != "scripted" && rd.Bool(0.3) {
 		c.Sess.Deploy.RealInitDelayMs = rd.Range(1, 40)
 	}
@@ -148,6 +156,38 @@ func max(a, b int) int {
 	return b
 }
 
+// runC11Direct: the KeyGenerator API used directly (no orchestrator in front of it that returns on the context's
+// behalf): a peer goes silent after K messages and every context is CANCELLED (not expired) at some step; every
+// KeyGen call must return.
+func runC11Direct(t *testing.T, spec RunSpec, cfg C11Cfg, res *RunResult) {
+	sc := cfg.Sess
+	res.ConfigKey = fmt.Sprintf("%s direct-api keygen n=%d fault=cancel+silent-peer", sc.Deploy.Backend, len(sc.Deploy.IDs))
+	restore := seedCryptoRand(spec.Seed)
+	defer restore()
+	bubble(t, func() {
+		w := netsim.NewWorld(spec.Seed)
+		w.Serial = true
+		trace(spec, res.Cfg, w)
+		lg := NewCountLogger()
+		tt := sc.T
+		if tt < 2 {
+			tt = 2
+		}
+		_, calls, ss := runDirectDKG(spec, w, sc.Deploy.Backend, sc.Deploy.IDs, tt, 2, sc.Strategy, lg, directOpts{Silent: cfg.P, SilentAfter: cfg.K, CancelAtStep: cfg.CancelAt})
+		res.Violations = append(res.Violations, panicViolations(w, "C11/panic")...)
+		if len(res.Violations) == 0 {
+			for _, c := range calls {
+				if !w.CallDone(c) {
+					res.Violations = append(res.Violations, netsim.Violation{Invariant: "C11/blocks-forever", Class: "C11/blocks-forever/" + sc.Deploy.Backend + "/direct-api", Detail: fmt.Sprintf("KeyGen of party %d is still blocked although its context was cancelled (peer %d went silent after %d messages): %s", c.Node, cfg.P, cfg.K, callSummary(calls))})
+					break
+				}
+			}
+		}
+		res.Nontrivial = w.Faults["cancel"] > 0
+		fillResult(res, w, ss)
+	})
+}
+
 func runC11(t *testing.T, spec RunSpec) *RunResult {
 	var cfg C11Cfg
 	if spec.Cfg != nil {
@@ -158,6 +198,10 @@ func runC11(t *testing.T, spec RunSpec) *RunResult {
 		cfg = genC11(spec.Seed, spec.Index, spec.Tier)
 	}
 	res := &RunResult{Property: "C11", Seed: spec.Seed, Cfg: mustJSON(cfg), Strategy: cfg.Sess.Strategy}
+	if cfg.Direct {
+		runC11Direct(t, spec, cfg, res)
+		return res
+	}
 	mode := "loud"
 	if cfg.Sess.Deploy.Silent {
 		mode = "silent"
